@@ -142,12 +142,12 @@ type floodMsg struct {
 
 // floodWithStop enables the histories "a client Stop() while a receive backlog
 // (flood) is pending": flood cases in scenarios that call Stop, and the flood
-// variant stop-in-progress. They are switched off because the property does not
-// hold there on the unchanged tree (see findings/C15.md, "Stop() with a receive
-// backlog wedges the muxer"): Protocol.Stop -> Muxer.UnregisterProtocol blocks on
-// the receiver's mutex, which muxer.readLoop holds while it is blocked sending
-// into that protocol's full channel.
-const floodWithStop = false
+// variant stop-in-progress. Before /repo commit 2f319f8 the property did not hold
+// there (findings/C15.md, "Stop() with a receive backlog wedges the muxer":
+// Protocol.Stop -> Muxer.UnregisterProtocol blocked on the receiver's mutex, which
+// muxer.readLoop held while blocked sending into that protocol's full channel);
+// the histories are part of the search now.
+const floodWithStop = true
 
 func (s *scenario) callsStop() bool {
 	for _, c := range s.Calls {
